@@ -56,6 +56,62 @@ def run(F, R, ctx):
                "%s takes/overwrites StackFrameAttachments.weak_continuation_mark of the popped frame on a path that then "
                "calls close_continuation_marks: the close finds no mark and is a no-op" % fn.short(),
                fn.loc(), sample={"mutable_mark_accesses": len(muts)})
+    # frames dropped in a loop: a frame may be skipped without closing only on the no-mark side of a test of its mark
+    R.rule("C08.d", "in the error-unwind loops (the frame-dropping loops that look for handlers), every path from "
+                    "popping a frame to popping the next one passes through close_continuation_marks, unless it leaves "
+                    "through the 'absent' side of a test of that frame's attachments / weak_continuation_mark only (a test "
+                    "of anything else, e.g. the handler, does not excuse skipping the close)")
+    MARK_FIELDS = {"attachments", "weak_continuation_mark"}
+    nloops = 0
+    for fn in sorted(poppers, key=lambda f: f.name):
+        for p in frame_pops(fn):
+            if p not in fn.reachable_from(fn.succ(p)):
+                continue  # not in a loop
+            if not any(e[1] == "StackFrameAttachments" and e[2] == "handler" for _, e in lib.family_events(F, fn, "fld")):
+                continue  # continuation re-entry loops keep frames the target continuation still contains: different rule
+            nloops += 1
+            df = lib.derivation_fields(F, fn)
+            dest = re.match(r"_\d+", fn.blocks[p].get("dest") or "")
+            base_fields = set(df.get(dest.group(0), set())) if dest else set()  # how the frame stack itself is reached
+            closes = set(fn.call_blocks(CLOSE))
+            # BFS from the pop, not crossing closes, not taking the 'absent' edge of pure mark tests
+            seen = set()
+            stack = list(fn.succ(p))
+            hit = False
+            while stack:
+                b = stack.pop()
+                if b in seen or b in closes:
+                    continue
+                if b == p:
+                    hit = True
+                    break
+                seen.add(b)
+                blk = fn.blocks[b]
+                succ = fn.succ(b)
+                if blk["k"] == "switch":
+                    pl = blk.get("place", "")
+                    loc = re.match(r"_\d+", pl.strip("(*)"))
+                    fl = set(re.findall(r"\.([A-Za-z_][A-Za-z0-9_]*)", pl))
+                    if loc:
+                        fl |= df.get(loc.group(0), set())
+                    fl -= {"0", "1"}
+                    fl -= base_fields
+                    if fl and fl <= MARK_FIELDS:
+                        if blk["on"] == "enum:Option":
+                            m = lib.arm_map(fn, b)
+                            none_t = m.get("None", m["_"])
+                            succ = [s_ for s_ in succ if s_ != none_t]
+                        elif blk["on"] == "bool":
+                            zero = [t for v, t in blk["targets"] if v == "0"]
+                            succ = [s_ for s_ in succ if s_ not in zero]
+                stack.extend(succ)
+            R.inst("C08.d", "%s / a frame with a mark is not skipped" % fn.short(), not hit,
+                   "%s can go from popping one frame to popping the next without calling close_continuation_marks and "
+                   "without having found the frame's continuation mark absent (the close is conditional on something "
+                   "else, e.g. on the frame having a handler): a continuation captured in a frame that is unwound stays "
+                   "open" % fn.short(), fn.loc(fn.blocks[p]["line"]), sample=True)
+    R.floor("C08.d", "error-unwind loops", nloops, 2)
+
     # close_marks itself must upgrade the weak mark and close it
     cm = F.one(r"^steel::steel_vm::vm::\{impl Continuation\}::close_marks$")
     reads = any(e[1] == "StackFrameAttachments" and e[2] == "weak_continuation_mark" for _, e in lib.family_events(F, cm, "fld"))
